@@ -21,6 +21,21 @@ CLAIMED = {
    text="Assignment.tla states the four clauses (every partition exactly once, only to subscribers, balanced for identical subscriptions, independent of member order) independently of the algorithm, TLC checks them on the documented round-robin algorithm for every input with <=3 members, 2 topics and 5 partition sets (exhaustive on that domain), every such input is executed on the real generate_assignments for every order of the member list and each member's share is decoded with the real decode_assignment (and an independent parse of the encoded bytes), and TLC re-validates the recorded outputs against the same clauses; larger seeded inputs go the same way.",
    ref="DESIGN.md 6.8, 7 (C15)",
    note="Trusted: TLC. An implementation that satisfies the clauses with another algorithm is accepted (reported as drift). Larger member/topic counts are sampled only."),
+ "C04": dict(
+   text="Wire.tla is an independent TLA+ encoder of the protocol subset (request header, 14 request layouts, message formats 0/1 with CRC32.tla); TLC enumerates abstract requests (boundary integers, empty/non-ASCII strings, null/empty bytes, 0-2 topics x 0-2 partitions x 0-2 messages, both magics) as one state each, checks header-version/message-format consistency on them and emits the bytes; afkak's encoders are run on every expressible vector and must give the same bytes, or bytes that an independent parser (itself checked against the same vectors) maps to the same request up to array order.",
+   ref="DESIGN.md 6.9, 7 (C04)",
+   note="Trusted: TLC; the grammar as transcribed in Wire.tla from the protocol guide. Version negotiation (last sentence) is decided by the client-family check (ClientRouting/Negotiation) which this check calls once built; until then that sentence is not claimed. Large (>64 kB) values are exercised only in end-to-end runs.",
+   technique="TLA+ specification of the wire grammar evaluated by TLC as test-vector generator (one state per abstract request) with invariants on the vectors; implementation encoders compared byte-for-byte"),
+ "C05": dict(
+   text="TLC computes, from Wire.tla, the bytes of well-formed responses of all supported APIs/versions (every error code class, boundary integers, null/empty strings and bytes, 0-2 topics/partitions/members) and of plain message sets in both formats, and from MessageSet.tla the logical content (absolute offsets) of compressed and nested wrappers; afkak's decoders are run on all of them and must return exactly the encoded values; afkak's own encode-then-decode must be the identity and give the grammar's bytes.",
+   ref="DESIGN.md 6.9, 7 (C05)",
+   note="Trusted: TLC, Wire.tla/MessageSet.tla. Deflate is outside the specification (wrappers are compressed by Python's gzip); snappy is not installed.",
+   technique="TLA+ specification of the wire grammar and of message-set offset rules evaluated by TLC as test-vector generator; implementation decoders compared with the abstract values"),
+ "C12": dict(
+   text="CRC32.tla is the checksum oracle: every single-bit flip, bursts of width 2-12 (all or sampled interiors), wide random bursts and, for 32-bit windows, the 32 bursts whose CRC syndrome is a single checksum bit (solved over GF(2)) are applied to the checksummed bytes of messages from the TLC vectors, the real decoder's outcome is recorded and TLC (CrcJudge.tla) decides for each whether a checksum error was mandatory; every truncation point of every vector message set is decoded and compared with the count of complete entries MessageSet.tla computes; every length/count field of every response vector and every entry size is replaced by hostile values and decoding must terminate within time/memory linear in the input.",
+   ref="DESIGN.md 6.9, 7 (C12), 8",
+   note="Trusted: TLC, CRC32.tla (pinned to the standard check value). The third sentence is covered only for the grammar-derived hostile-length family, not for arbitrary byte strings; the resource bound is measured by the harness, not by the model. Buffer enlargement by the consumer is decided by the consumer-family check (called from here once built).",
+   technique="TLA+ CRC-32 and message-set specification: TLC judges recorded decoder outcomes of mutated messages (trace validation) and computes truncation oracles; hostile-length vectors derived from the specification's field segmentation"),
 }
 PENDING_REASON = "check not built yet in this round (framework under construction; see DESIGN.md section 12 for the order)"
 
